@@ -63,7 +63,7 @@ func (nr NoUseAfterRelease) summaries(r *Run) aliasSummary {
 					continue
 				}
 				c := f.Ctx()
-				ast.Inspect(f.Body(), func(x ast.Node) bool {
+				InspectBody(f, func(x ast.Node) bool {
 					if _, isLit := x.(*ast.FuncLit); isLit {
 						return false
 					}
@@ -193,7 +193,7 @@ func (nr NoUseAfterRelease) aliases(c *Ctx, f *FuncInfo, o types.Object, sum ali
 	tracked := map[types.Object]bool{o: true}
 	for changed := true; changed; {
 		changed = false
-		ast.Inspect(f.Body(), func(x ast.Node) bool {
+		InspectBody(f, func(x ast.Node) bool {
 			var lhs []ast.Expr
 			var rhs []ast.Expr
 			switch s := x.(type) {
